@@ -177,6 +177,21 @@ impl<'a> Cx<'a> {
     }
     /// Report a violation. `class` is the clause / witness class; `detail` the rendered witness.
     pub fn violation(&mut self, class: &str, detail: Value) {
+        // A witness may quote values produced by the code under test. A `String` that holds bytes which are not UTF-8 (possible only through
+        // `unsafe`) would make the result file unreadable and the violation would be lost as "no result file": make every string text first.
+        fn clean(s: &str) -> String {
+            String::from_utf8_lossy(s.as_bytes()).into_owned()
+        }
+        fn sanitize(v: Value) -> Value {
+            match v {
+                Value::String(s) => Value::String(clean(&s)),
+                Value::Array(a) => Value::Array(a.into_iter().map(sanitize).collect()),
+                Value::Object(o) => Value::Object(o.into_iter().map(|(k, v)| (clean(&k), sanitize(v))).collect()),
+                other => other,
+            }
+        }
+        let detail = sanitize(detail);
+        let class = clean(class);
         let signature = format!("{}|{}", self.gen, class);
         self.rec.add_violation(Violation {
             signature,
